@@ -127,7 +127,7 @@ func TestVerifC17(t *testing.T) {
 			runOne(cs)
 		}
 		r := vNewRand(vSeed())
-		n := vN(220, 2500)
+		n := vN(150, 2000)
 		for i := 0; i < n; i++ {
 			rr := r.Fork()
 			names := msPickNames(rr, 30)
